@@ -284,7 +284,8 @@ def gen_case(rng, what):
         closers = [s for s in secs if s not in sources and rng.random() < 0.5]
         targets = [s for s in secs if s not in sources and s not in closers]
         c["cdates"] = {s: rng.choice([0, 1, 2, 3, 4, 5, 9]) for s in closers}
-        c["rolls"] = {s: {"date": rng.choice([0, 2, 3, 4, 9]), "target": rng.choice(targets), "factor": rng.choice(["1", "2", "1/2", "3/2"])} for s in sources} if targets else {}
+        # (a target may itself roll, on the same date or another: chains A -> B -> X, swaps A <-> B)
+        c["rolls"] = {s: {"date": rng.choice([0, 2, 3, 3, 4, 9]), "target": rng.choice(targets + [x for x in sources if x != s]), "factor": rng.choice(["1", "2", "1/2", "3/2"])} for s in sources} if targets else {}
         if not targets:
             sources = []
         tr = {}
